@@ -259,16 +259,27 @@ fn unhtml(h: &str) -> String {
     s
 }
 
+
+/// A spec failure that the Rust-side classifier places in a known class: the first few go to Coq
+/// (classifier evaluated there), the rest are recorded with the `known` tag; outside the class it is a violation.
+fn known_hit(out: &mut CaseOut, budget: &mut BTreeMap<&'static str, i64>, id: &'static str, in_class: bool, term: String, desc: serde_json::Value) {
+    let b = budget.entry(id).or_insert(0);
+    if !in_class || *b > 0 { *b -= 1; out.coq_case(&format!("known:{}", id), term, desc, true); }
+    else { let mut d = desc; d["known"] = json!(id); out.spec_checked(false, d); }
+}
+fn f9_in_class(text: &str, toks: &[Tok], frag: &str, max: usize) -> bool { toks.iter().any(|t| t.to - t.from > max && text.get(t.from..t.to) == Some(frag)) }
+
 fn main() {
     let args = Args::parse();
     tvh::quiet_panics();
     let mut rng = Rng::new(args.seed);
     let thorough = args.thorough();
     let mut out = CaseOut::new(&args.out, HEADER, 40);
+    let mut known_budget: BTreeMap<&'static str, i64> = [("F9", 12i64), ("F10", 12), ("F21", 12), ("F22", 12)].into_iter().collect();
 
     // ================= (i) tokens =================
     let n_texts = if thorough { 900 } else { 220 };
-    let mut coq_budget: i64 = if thorough { 1600 } else { 420 };
+    let mut coq_budget: i64 = if thorough { 900 } else { 200 };
     for i in 0..n_texts {
         let text = gen_text(&mut rng, i);
         for j in 0..(if thorough { 6 } else { 4 }) {
@@ -292,7 +303,7 @@ fn main() {
             let nontrivial = !toks.is_empty() && (!text.is_ascii() || !fls.is_empty());
             if !t_ok {
                 // only the facet tokenizer is known to leave offsets unset (F22)
-                out.coq_case("known:F22", format!("f22_class {} {}", cps(&text), toks_term(&base)), json!({"what": "token text differs from its slice", "case": desc}), true);
+                known_hit(&mut out, &mut known_budget, "F22", matches!(tk, Tk::Facet) && base.len() <= 200, format!("f22_class {} {}", cps(&text), toks_term(&base)), json!({"what": "token text differs from its slice", "case": desc}));
             }
             if !small || coq_budget <= 0 { continue; }
             coq_budget -= 1;
@@ -312,7 +323,8 @@ fn main() {
 
     // ================= (ii) snippets =================
     let n_snip = if thorough { 260 } else { 70 };
-    let mut coq_snip: i64 = if thorough { 900 } else { 260 };
+    let mut coq_snip: i64 = if thorough { 300 } else { 60 };
+
     for i in 0..n_snip {
         let text = { let mut t = gen_text(&mut rng, 5 + (i % 7)); if t.chars().count() > 60 { t = t.chars().take(60).collect(); } t };
         let tk = match i % 6 { 0 | 1 => Tk::Simple, 2 => Tk::Whitespace, 3 => Tk::Ngram(1 + rng.below(2) as usize, 2 + rng.below(2) as usize, false), 4 => gen_tokenizer(&mut rng, i), _ => Tk::Simple };
@@ -367,13 +379,13 @@ fn main() {
             out.spec_checked(sub, json!({"what": "fragment is not a substring of the text", "case": desc, "fragment": frag}));
             let len_ok = frag.chars().count() <= max;
             if !len_ok { out.count("f9_hits", 1);
-                out.coq_case("known:F9", format!("f9_class {} {} {} {}", cps(&text), toks_term(&toks), cps(&frag), max), json!({"what": "fragment longer than max_num_chars", "case": desc, "fragment": frag}), true); }
+                known_hit(&mut out, &mut known_budget, "F9", f9_in_class(&text, &toks, &frag, max), format!("f9_class {} {} {} {}", cps(&text), toks_term(&toks), cps(&frag), max), json!({"what": "fragment longer than max_num_chars", "case": desc, "fragment": frag})); }
             // -- highlighted(): sorted, disjoint, inside the fragment, on boundaries
             let (dis, inside) = ranges_ok(&frag, &hl);
             if !inside { out.count("f21_hits", 1);
-                out.coq_case("known:F21", format!("f21_class {}", toks_term(&toks)), json!({"what": "highlighted range outside the fragment / off a boundary", "case": desc, "fragment": frag, "highlighted": format!("{:?}", hl)}), true); }
+                known_hit(&mut out, &mut known_budget, "F21", !to_monotone(&toks), format!("f21_class {}", toks_term(&toks)), json!({"what": "highlighted range outside the fragment / off a boundary", "case": desc, "fragment": frag, "highlighted": format!("{:?}", hl)})); }
             if !dis { out.count("f10_hits", 1);
-                out.coq_case("known:F10", format!("f10_class {}", toks_term(&toks)), json!({"what": "highlighted() ranges overlap", "case": desc, "highlighted": format!("{:?}", hl)}), true); }
+                known_hit(&mut out, &mut known_budget, "F10", !disjoint(&toks), format!("f10_class {}", toks_term(&toks)), json!({"what": "highlighted() ranges overlap", "case": desc, "highlighted": format!("{:?}", hl)})); }
             // -- collapsed ranges (what to_html uses): same predicates
             let col = collapse_overlapped_ranges(&hl);
             let (cdis, cinside) = ranges_ok(&frag, &col);
@@ -387,7 +399,7 @@ fn main() {
             match &html {
                 Err(e) => {
                     if inside { out.spec_checked(false, json!({"what": "to_html panicked", "case": desc, "panic": e})); }
-                    else { out.coq_case("known:F21", format!("f21_class {}", toks_term(&toks)), json!({"what": "to_html panicked (highlight outside the fragment)", "case": desc, "panic": e}), true); }
+                    else { known_hit(&mut out, &mut known_budget, "F21", !to_monotone(&toks), format!("f21_class {}", toks_term(&toks)), json!({"what": "to_html panicked (highlight outside the fragment)", "case": desc, "panic": e})); }
                 }
                 Ok(h) => {
                     out.spec_checked(unhtml(h) == frag, json!({"what": "to_html does not read back as the fragment", "case": desc, "html": h}));
@@ -410,7 +422,6 @@ fn main() {
                 out.coq_case("tie", format!("ohtml_eqb (to_html SNIPPET_DEFAULT_PREFIX SNIPPET_DEFAULT_POSTFIX (mkSnip {} {})) {}", cps(&frag), ranges_term(&hl), cps(h)), json!({"what": "to_html model", "case": desc}), !hl.is_empty());
             }
         }
-        let _ = disjoint(&toks);
     }
 
     // ================= (iii) SnippetGenerator::new with arbitrary dyadic scores =================
@@ -435,7 +446,7 @@ fn main() {
                     cf::list(&terms_v, |(t, s)| format!("({}, {})", cps(t), s)), max, cps(&text), toks_term(&toks), cps(&frag), ranges_term(&hl)), desc.clone(), !hl.is_empty());
                 let (dis, inside) = ranges_ok(&frag, &hl);
                 out.spec_checked(dis && inside && unhtml(&html) == frag && text.contains(&frag), json!({"what": "snippet(new) spec", "case": desc}));
-                if frag.chars().count() > max { out.coq_case("known:F9", format!("f9_class {} {} {} {}", cps(&text), toks_term(&toks), cps(&frag), max), json!({"what": "fragment longer than max_num_chars", "case": desc, "fragment": frag}), true); }
+                if frag.chars().count() > max { known_hit(&mut out, &mut known_budget, "F9", f9_in_class(&text, &toks, &frag, max), format!("f9_class {} {} {} {}", cps(&text), toks_term(&toks), cps(&frag), max), json!({"what": "fragment longer than max_num_chars", "case": desc, "fragment": frag})); }
                 out.count("snippet_new_cases", 1);
             }
         }
